@@ -60,6 +60,10 @@ AFTER = {
     "C10-r4": "reported by C14.R5 (the forward-reference record must be keyed with the label name), which existed before this seed; C10's containment rules do not model the driver's label check",
     "C13-r4": "first reported by C19.R6 only (the name stays in the nesting set on the too-deep exit, a genuine consequence); C13.R8 (the depth test counts the open expansions so that a chain of 64 is still expanded) was added after this seed",
     "C15-r4": "reported by C16.R1 (a pushed line without source-map entry), which existed before this seed; C15's census leaves the driver's `source_map.get(..).unwrap()` undecided",
+    "C08-r6": "the clause of C08.R4 that the return index is pushed on every path entering the procedure (the push, or the helper that always pushes, dominates the JMP outcome) was added after this seed; before it R4 only asked for *a* push of current+1 and the seed was missed",
+    "C14-r5": "reported by C12.R2, whose clause `every accepting path of a labelled directive binds the label as DATA` was added after this seed; before it the seed was missed (the early return pushed nothing, so the path was set aside)",
+    "C20-r5": "atom P of C20.R4 (the prompt may not depend on a comparison of the index with a remembered value) was added after this seed; before it the rows were undecided",
+    "C12-r6": "MISSED: the silent wrap of the assembler's data counter (`wrapping_add` behind a guard relaxed by one) raises no overflow assertion, and C12.R4 only classifies assertions; a rule on the closed form of the new counter value is not written",
     "C20-r1": "caught through C17.R3 (the print range rule), which was extended after this seed; no rule of C20 decides it",
 }
 # alarms of other properties' checks on this seed, judged one by one
@@ -93,6 +97,9 @@ CROSS = {
     ("C13-r4", "C19"): "genuine: on the too-deep exit the macro's name stays in the nesting set; the parser object then rejects a later, valid use of that macro (C19: objects do not leak state)",
     ("C15-r4", "C16"): "genuine: `nop` emits a line without a source-map entry: every later line is attributed to the line before it (C16), and the last emitted line has no entry at all (the abort C15 names)",
     ("C14-r4", "C16"): "genuine: the parked `call` is recorded with the production's bare lookaround; for a call that comes out of a macro expansion the driver's report would cite the line at that offset of the expanded text (the defect repaired for jumps in 6bb1ba6)",
+    ("C15-r5", "C12"): "genuine: the u16 product 2*n overflows for n >= 32768 (C12.R4: counter arithmetic cannot overflow unnoticed)",
+    ("C14-r5", "C12"): "genuine: the label of `db [0]` is not bound to the data counter (C12: labels resolve to the first byte of their definition)",
+    ("C13-r5", "C14"): "genuine premise failure: the re-rendered argument contains `es:` followed by a blank, which the assembler's lexer reads as a label token inside an expansion; C14.R6 (no label can be defined by an expansion) no longer holds structurally, although here the parse then fails",
     ("C20-r1", "C17"): "genuine: a print range that leaves the 1 MB space is no longer reported (C17's last clause)",
 }
 
